@@ -16,8 +16,10 @@ def run(ctx):
         system.engine_design(ctx)
     system.engine_traces(ctx, t, "shutdown")
     # a connection arriving while the engine is stopping, the listener's loop busy and the listener duplicated by the user
-    t = system.record(ctx, "lateaccept", test="TestVerifLateAccept")
-    system.validate(ctx, t, ["TrFd", "TrLife"], "late connection during shutdown with DupListener held")
+    # ... and two connections reported by the same wait, the first one's callback closing the second (stale event)
+    for tags in (["verif"] + (["verif poll_opt"] if ctx.thorough else [])):
+        t = system.record(ctx, "lateaccept-" + tags.replace(" ", "+"), test="TestVerifLateAccept", tags=tags, rounds=3 if ctx.thorough else 1)
+        system.validate(ctx, t, ["TrFd", "TrLife"], "late connection during shutdown with DupListener held; close from another connection's callback, " + tags)
     t = system.record(ctx, "rotate-fail", test="TestVerifRotateFail")
     system.validate(ctx, t, ["TrFd"], "Rotate failing on a later address")
     if vlib.have_strace():
